@@ -26,11 +26,11 @@ Net == Flatten2([n \in 1..(IF Thorough THEN 3 ELSE 2) |-> Flatten2([f \in 1..2 |
 
 Descs == MyCases(Leaf \o Chain \o Net)
 
-PDom(loss) == IF loss = "mse" THEN "any,prob01" ELSE "prob01,unit,prob01in"
+PDom(loss) == IF loss = "mse" THEN "any,prob01" ELSE "prob01,unit,prob01in,nearbound"     \* nearbound: one ulp / a few ppm off a clipping bound, on either side
 Build(d) ==
   CASE d[1] = "leaf" ->
          MkCase("c13", d[2], <<In("p", d[3], d[4]), In("t", d[3], d[5])>>,
-                <<PDom(d[2]), IF d[5] THEN "unit" ELSE "targ01">>, <<Ins(d[2], NoPar, <<1, 2>>)>>, <<3>>, 3, FALSE)
+                <<PDom(d[2]), IF d[5] THEN "unit" ELSE "targ01,targ01,targ01,t0">>, <<Ins(d[2], NoPar, <<1, 2>>)>>, <<3>>, 3, FALSE)
     [] d[1] = "chain" ->
          MkCase("c13", d[2], <<In("x", d[3], TRUE), In("d", d[3], FALSE), In("t", d[3], FALSE)>>, <<"unit", "q01", "targ01">>,
                 <<Ins("scale", [k |-> Half], <<1>>), Ins("add", NoPar, <<4, 2>>), Ins(d[2], NoPar, <<5, 3>>)>>, <<5, 6>>, 6, FALSE)
